@@ -59,8 +59,8 @@ FamExport(v) == AllOne \cup TwoSmall
 \* thorough: two items, both schedulers
 FamTwo(v) == Scns(ItemScn(Both, {0, 1, 2}, {0, 1, 2}, TsCombos), ItemScn(Both, {0, 1}, {0, 1}, CSmall))
 \* three threads: a second foreign thread G
-FamG(v) == Scns(ItemScn({"ts"}, {0, 1}, {0, 1}, CG), {Absent} \cup ItemScn({"ts"}, {0, 1}, {0}, CForeign))
-FamGExport(v) == FamG(v)
+FamG(v) == Scns(ItemScn({"ts"}, {0, 1}, {0}, CG), {Absent} \cup ItemScn({"ts"}, {1}, {0}, {<<"F", "F">>}))
+FamGExport(v) == Scns(ItemScn({"ts"}, {0, 1}, {0, 1}, CG), {Absent} \cup ItemScn({"ts"}, {0, 1}, {0}, CForeign))
 \* three items (simulation)
 FamThree(v) == Scns(ItemScn(Both, {0, 1, 2}, {0, 1}, TsCombos), ItemScn(Both, {0, 1}, {0, 1}, CSmall))
 
